@@ -135,7 +135,13 @@ def collect(ck: Check, n_cases: int, n_ops: int, fixed: list | None = None):
             ck.broke("impl-runner", r)
             continue
         out += r["results"]
-    crashed = [r for r in out if "crash" in r]
+    out = [r for r in out if not r.get("skipped")]
+    hung = [r for r in out if r.get("hang")]
+    if hung:
+        h0 = min(hung, key=lambda r: len(r.get("ops") or []))
+        ck.fail_input(f"{ck.pid}:hang", "the history did not come to an end: after its last operation something waits "
+                      "for ever (25 s of real time)", {"backend": h0["backend"], "ops": h0.get("ops") or []})
+    crashed = [r for r in out if "crash" in r and not r.get("hang")]
     if crashed:
         c0 = min(crashed, key=lambda r: len(r.get("ops") or []))
         ck.runner_crash({"backend": c0["backend"], "ops": c0.get("ops") or []}, c0["crash"])
